@@ -433,7 +433,7 @@ def replay(pid, path):
 
 
 HOOK_COMMITS = ["ffc8b2b"]
-FIX_COMMITS = ["ca17dcd", "3401bdf", "db0baa0", "3af4e16", "b9b9933", "8154c20", "f1b4fb0", "9b44a2c", "d0885ee", "c8750dd", "2ca6488", "82641ae"]
+FIX_COMMITS = ["ca17dcd", "3401bdf", "db0baa0", "3af4e16", "b9b9933", "8154c20", "f1b4fb0", "9b44a2c", "d0885ee", "c8750dd", "2ca6488", "82641ae", "d771171"]
 NOT_YET = {}
 
 PROOF_NOTE = ("Trusted: Lean kernel; Semantics/*.lean as the specification; the correspondence harness and serialisers; "
@@ -681,7 +681,7 @@ PROPS = {
                       "induction_sound (the two obligations imply F for every integer >= n, for every formula incl. rebinding of the induction variable), "
                       "inductiveLemma_shape, definition_accepted_implies, definition_conservative (every interpretation can be changed on the defined predicate alone so that an accepted "
                       "definition holds - so no accepted definition makes a claim about the task's predicates available), outline_sequencing (lemma k's problems use the direction's axioms and the "
-                      "consequences of lemmas < k) proved; head arguments pairwise distinct since fix c8750dd; one literal-reading known finding (definition predicate may occur in an earlier lemma), harmless by definition_conservative.",
+                      "consequences of lemmas < k) proved; head arguments pairwise distinct since fix c8750dd; definition_entry_is_fresh / lemma_entry_records_predicates: since fix d771171 a definition's predicate occurs in no earlier entry of the outline, lemmas included (the former literal-reading finding, lemma_before_definition_refused).",
         "level_note": PROOF_NOTE,
         "technique": "Lean 4 proof (integer induction + substitution lemma; fold invariants) + differential correspondence",
         "design_ref": "DESIGN.md 6/C13",
